@@ -126,7 +126,7 @@ for p in props:
         na.append({"property_id":i,"reason":NOT_YET.get(i,"check not built yet in this round (planned: bounded-exhaustive exploration per DESIGN.md §5); nothing is claimed for it")})
 m={"version":1,"setup_cmd":"./setup.sh",
  "hooks":{"guard":"yift_jawk_verif","enable":"none needed: no source hooks exist; the harness drives the public jawk::go / Cli API and the built executable (guard name reserved)","baseline_off_cmd":BASE,"source_commits":[],"add_only":True},
- "engines":[{"name":"jv","path":"harness","serves_properties":[c["property_id"] for c in checks],"kind_free_text":"stateless bounded-exhaustive explorer of the real code (in-process jawk::go with fault-injecting reader/writers; child processes for the executable) in lock-step with Rust reference models; 16 worker processes over static slices; every 97th run is repeated on a thread of its own and, if that ever diverges, the whole check is repeated with every run on a thread of its own (state the subject keeps between runs)"}],
+ "engines":[{"name":"jv","path":"harness","serves_properties":[c["property_id"] for c in checks],"kind_free_text":"stateless bounded-exhaustive explorer of the real code (in-process jawk::go with fault-injecting reader/writers; child processes for the executable) in lock-step with Rust reference models; 16 worker processes over static slices; every 499th run is repeated on a thread of its own and, if that ever diverges, the whole check is repeated with every run on a thread of its own (state the subject keeps between runs)"}],
  "checks":checks,"not_applicable":na,
  "notes":"exit 0 = held on everything explored (KNOWN-FINDING lines allowed), 1 = VIOLATION line(s), 2 = machinery failure (never a verdict). Known findings: known_findings.json. Seeded property-breaking changes: seeded/."}
 json.dump(m,open('/verif/MANIFEST.json','w'),indent=1)
